@@ -271,9 +271,21 @@ def _simple_helper(h):
     return True
 
 
+def _expressible_helper(h):
+    for n in ast.walk(h):
+        if n is not h and isinstance(n, (ast.FunctionDef, ast.AsyncFunctionDef, ast.Lambda, ast.ClassDef, ast.Yield, ast.YieldFrom, ast.Global, ast.Nonlocal, ast.Await,
+                                          ast.For, ast.While, ast.Try, ast.With, ast.Raise)):
+            return False
+    if h.args.vararg or h.args.kwarg or h.args.kwonlyargs or h.args.posonlyargs:
+        return False
+    if h.decorator_list and not all(isinstance(d, ast.Name) and d.id == 'staticmethod' for d in h.decorator_list):
+        return False
+    return True
+
+
 def expression_helper(h, is_method):
     """(parameter names, expression) if the helper amounts to `return E` with E free of side effects, else None"""
-    if not _simple_helper(h):
+    if not _expressible_helper(h):
         return None
     f = copy.deepcopy(h)
     for n in ast.walk(f):
@@ -287,11 +299,24 @@ def expression_helper(h, is_method):
         if not (a or b or c):
             break
     body = [s_ for s_ in f.body if not isinstance(s_, ast.Pass)]
-    if len(body) == 2 and isinstance(body[0], ast.If) and isinstance(body[1], ast.Return) and len(body[0].body) == 1 and isinstance(body[0].body[0], ast.Return) and not body[0].orelse \
-            and body[0].body[0].value is not None and body[1].value is not None:
-        body = [ast.Return(value=ast.IfExp(test=body[0].test, body=body[0].body[0].value, orelse=body[1].value))]
-    if len(body) != 1 or not isinstance(body[0], ast.Return) or body[0].value is None or not is_pure(body[0].value):
+
+    def to_expr(stmts):
+        stmts = [s_ for s_ in stmts if not isinstance(s_, ast.Pass)]
+        if not stmts:
+            return None
+        st = stmts[0]
+        if isinstance(st, ast.Return):
+            return st.value if st.value is not None else ast.Constant(value=None)
+        if isinstance(st, ast.If) and is_pure(st.test):
+            a = to_expr(st.body)
+            b = to_expr(st.orelse + stmts[1:]) if (st.orelse or stmts[1:]) else None
+            if a is not None and b is not None:
+                return ast.IfExp(test=st.test, body=a, orelse=b)
         return None
+    value = to_expr(body)
+    if value is None or not is_pure(value):
+        return None
+    body = [ast.Return(value=value)]
     params = [a.arg for a in f.args.args]
     static = any(isinstance(d, ast.Name) and d.id == 'staticmethod' for d in f.decorator_list)
     if is_method and not static:
@@ -619,6 +644,25 @@ def _split_ifexp(func):
             ast.fix_missing_locations(new)
             block[i] = new
             changed = True
+    return changed
+
+
+def return_of_assignment(func):
+    """`t = E; return t` (t a local) is `return E`: the name is dead after the return"""
+    changed = False
+    params = set(_params(func))
+    for owner, block in _all_blocks(func):
+        i = 0
+        while i + 1 < len(block):
+            a, b = block[i], block[i + 1]
+            if isinstance(a, ast.Assign) and len(a.targets) == 1 and isinstance(a.targets[0], ast.Name) and isinstance(b, ast.Return) and isinstance(b.value, ast.Name) \
+                    and b.value.id == a.targets[0].id and not _has_nested_scope_use(func, b.value.id) and not any(isinstance(n, (ast.Global, ast.Nonlocal)) for n in ast.walk(func)):
+                inside_try_finally = False
+                b.value = a.value
+                del block[i]
+                changed = True
+                continue
+            i += 1
     return changed
 
 
@@ -1035,6 +1079,37 @@ _MIRROR = {ast.Gt: ast.Lt, ast.GtE: ast.LtE}
 _COMMUTE = (ast.Mult, ast.BitAnd, ast.BitOr, ast.BitXor)      # not Add: sequences concatenate in order
 
 
+def _negate(e):
+    """expression equal to `not e` with the negation pushed inwards, or None"""
+    if isinstance(e, ast.UnaryOp) and isinstance(e.op, ast.Not):
+        return e.operand if _is_boolean(e.operand) else None
+    if isinstance(e, ast.BoolOp) and all(_is_boolean(v) for v in e.values):
+        parts = [_negate(v) or ast.UnaryOp(op=ast.Not(), operand=v) for v in e.values]
+        return ast.BoolOp(op=ast.Or() if isinstance(e.op, ast.And) else ast.And(), values=parts)
+    if isinstance(e, ast.Compare) and len(e.ops) == 1:
+        neg = {ast.Eq: ast.NotEq, ast.NotEq: ast.Eq, ast.Is: ast.IsNot, ast.IsNot: ast.Is, ast.In: ast.NotIn, ast.NotIn: ast.In}
+        if type(e.ops[0]) in neg:
+            return ast.Compare(left=e.left, ops=[neg[type(e.ops[0])]()], comparators=e.comparators)
+    return None
+
+
+def _is_boolean(e):
+    """the value of e is a bool (so `not not e` is e and De Morgan preserves the value, not only the truth)"""
+    if isinstance(e, ast.Compare):
+        return True
+    if isinstance(e, ast.UnaryOp) and isinstance(e.op, ast.Not):
+        return True
+    if isinstance(e, ast.BoolOp):
+        return all(_is_boolean(v) for v in e.values)
+    if isinstance(e, ast.Constant) and isinstance(e.value, bool):
+        return True
+    if isinstance(e, ast.Call) and isinstance(e.func, ast.Name) and e.func.id in ('isinstance', 'hasattr', 'bool', 'callable', 'issubclass', 'all', 'any'):
+        return True
+    if isinstance(e, ast.Call) and isinstance(e.func, ast.Attribute) and e.func.attr in ('startswith', 'endswith', 'isdigit', 'isalpha', 'isspace', 'isprintable', 'issubdtype'):
+        return True
+    return False
+
+
 def cx(e):
     """canonical text of an expression: structure only; mirrored comparisons and symmetric operators are ordered"""
     if e is None:
@@ -1049,6 +1124,11 @@ def cx(e):
         return f'{cx(e.value)}[{cx(e.slice)}]'
     if isinstance(e, ast.Slice):
         return f'{cx(e.lower)}:{cx(e.upper)}:{cx(e.step)}'
+    if isinstance(e, ast.UnaryOp) and isinstance(e.op, ast.Not):
+        n = _negate(e.operand)
+        if n is not None:
+            return cx(n)
+        return f'(Not {cx(e.operand)})'
     if isinstance(e, ast.UnaryOp):
         return f'({type(e.op).__name__} {cx(e.operand)})'
     if isinstance(e, ast.BinOp):
@@ -1069,6 +1149,14 @@ def cx(e):
                 a, b = b, a
             return f'({op.__name__} {a} {b})'
         return '(cmp ' + cx(e.left) + ' ' + ' '.join(type(o).__name__ + ' ' + cx(c) for o, c in zip(e.ops, e.comparators)) + ')'
+    if isinstance(e, ast.Call) and isinstance(e.func, ast.Name) and e.func.id in ('sum', 'min', 'max', 'any', 'all', 'tuple', 'list', 'sorted', 'set', 'frozenset') \
+            and len(e.args) == 1 and not e.keywords and isinstance(e.args[0], ast.GeneratorExp):
+        # consumed completely and at once: the same as the list comprehension
+        lc = ast.ListComp(elt=e.args[0].elt, generators=e.args[0].generators)
+        return f'{e.func.id}({cx(lc)})'
+    if isinstance(e, ast.Call) and isinstance(e.func, ast.Attribute) and e.func.attr == 'join' and len(e.args) == 1 and not e.keywords and isinstance(e.args[0], ast.GeneratorExp):
+        lc = ast.ListComp(elt=e.args[0].elt, generators=e.args[0].generators)
+        return f'{cx(e.func)}({cx(lc)})'
     if isinstance(e, ast.Call):
         kws = sorted((k.arg or '**', cx(k.value)) for k in e.keywords)
         return f'{cx(e.func)}(' + ','.join([cx(a) for a in e.args] + [f'{k}={v}' for k, v in kws]) + ')'
@@ -1297,6 +1385,49 @@ def sized_chains(scope_nodes):
     return ok - bad
 
 
+def module_properties(tree):
+    """name -> expression over `self` for read-only properties that amount to `return E` (E free of side effects) and whose
+    name is defined by one class of the module only and never assigned as an attribute"""
+    found, count = {}, {}
+    assigned = {n.attr for n in ast.walk(tree) if isinstance(n, ast.Attribute) and isinstance(n.ctx, (ast.Store, ast.Del))}
+    for c in tree.body:
+        if not isinstance(c, ast.ClassDef):
+            continue
+        for g in c.body:
+            if isinstance(g, ast.FunctionDef):
+                count[g.name] = count.get(g.name, 0) + 1
+                if any(isinstance(d, ast.Name) and d.id == 'property' for d in g.decorator_list) and len(g.args.args) == 1:
+                    eh = expression_helper(g, True) if not g.decorator_list[1:] else None
+                    # expression_helper refuses decorated functions other than staticmethod: evaluate on a copy without decorators
+                    g2 = copy.deepcopy(g)
+                    g2.decorator_list = []
+                    eh = expression_helper(g2, True)
+                    if eh is not None and eh[0] == []:
+                        found[g.name] = (g.args.args[0].arg, eh[1])
+            elif isinstance(g, (ast.Assign, ast.AnnAssign)):
+                for t in (g.targets if isinstance(g, ast.Assign) else [g.target]):
+                    if isinstance(t, ast.Name):
+                        count[t.id] = count.get(t.id, 0) + 1
+    return {k: v for k, v in found.items() if count.get(k) == 1 and k not in assigned}
+
+
+class _PropInline(ast.NodeTransformer):
+    def __init__(self, props):
+        self.props = props
+        self.depth = 0
+
+    def visit_Attribute(self, node):
+        self.generic_visit(node)
+        if isinstance(node.ctx, ast.Load) and node.attr in self.props and is_pure(node.value) and self.depth < 4:
+            selfname, expr = self.props[node.attr]
+            self.depth += 1
+            out = _Subst({selfname: node.value}).visit(copy.deepcopy(expr))
+            out = self.visit(out)
+            self.depth -= 1
+            return out
+        return node
+
+
 def module_constants(tree):
     """module-level names bound exactly once to a number / string / bytes / bool / None literal (or its negation)"""
     count, val = {}, {}
@@ -1327,7 +1458,7 @@ _SIZED = [frozenset()]
 _CLASS = [None]
 
 
-def canonical(func, helpers=None, consts=None, sized=None, cls_name=None):
+def canonical(func, helpers=None, consts=None, sized=None, cls_name=None, props=None):
     """canonical form (text) of a function, or None if it cannot be built.
     helpers: name -> (FunctionDef, is_method) of functions that may be pasted into the body (those the other version of the
     module does not define)."""
@@ -1344,13 +1475,16 @@ def canonical(func, helpers=None, consts=None, sized=None, cls_name=None):
         if helpers:
             for _ in range(3):
                 usable = {k: v for k, v in helpers.items() if _simple_helper(v[0])}
-                x = inline_expression_helpers(f, usable)
+                x = inline_expression_helpers(f, helpers)
                 y = inline_helpers(f, usable, counter)
                 if not (x or y):
                     break
         if consts:
             bound = set(_params(f)) | {n.id for n in ast.walk(f) if isinstance(n, ast.Name) and isinstance(n.ctx, (ast.Store, ast.Del))}
             _Subst({k: v for k, v in consts.items() if k not in bound}).visit(f)
+        if props:
+            own = func.name if any(isinstance(d, ast.Name) and d.id == 'property' for d in func.decorator_list) else None
+            f = _PropInline({k: v for k, v in props.items() if k != own}).visit(f)
         _ExprRewrite().visit(f)
         ast.fix_missing_locations(f)
         for _ in range(8):
@@ -1362,7 +1496,8 @@ def canonical(func, helpers=None, consts=None, sized=None, cls_name=None):
             g = drop_dead_locals(f)
             h = loops_to_comprehensions(f)
             k = assignments_to_ifexp(f)
-            if not (a or b or c or d or e or g or h or k):
+            m = return_of_assignment(f)
+            if not (a or b or c or d or e or g or h or k or m):
                 break
         params = _params(f)
         _, stores, _ = _defs_and_uses(f)
